@@ -69,7 +69,45 @@ pub fn pool(seed: u64) -> Vec<Call> {
         ss.prop_map(Call::Stream)
     });
     let graph = (1usize..8).prop_flat_map(|n| (proptest::collection::vec(any::<u32>(), n..=n), proptest::collection::vec(proptest::collection::vec(0..n, 0..3), n..=n))).prop_map(|(labels, edges)| Call::Graph(crate::props::graphs::Graph { labels, edges }));
-    let strat = prop_oneof![4 => enc, 4 => dec, 2 => stream, 1 => graph];
+    // calls that keep coming back to the same few compiled declarations in different roles: every version of a history
+    // as writer and as reader of every other version's bytes (intact, with a damaged header, cut), and the pairs of
+    // declarations that share an identifier (Twin / m_twinother::Twin, TwinE / m_twineother::TwinE). Whatever a
+    // process keeps per type, per name or per stored version between calls shows here.
+    let b = crate::props::derived::batch();
+    let mut groups: Vec<Vec<std::sync::Arc<vmodel::Decl>>> = Vec::new();
+    groups.extend(b.histories.iter().enumerate().filter(|(h, g)| g.len() >= 3 && !b.dedup_histories[*h] && crate::props::derived::group_ok(g)).map(|(_, g)| g.clone()).take(3));
+    groups.extend(b.tuple_histories.iter().filter(|g| g.len() >= 3 && crate::props::derived::group_ok(g)).take(2).cloned());
+    for pair in [["Twin", "TwinOther"], ["TwinE", "TwinEOther"]] {
+        let g: Vec<_> = b.specials.iter().filter(|d| pair.contains(&d.name.as_str())).cloned().collect();
+        if g.len() == 2 && crate::props::derived::group_ok(&g) {
+            groups.push(g);
+        }
+    }
+    let fam = (prop::sample::select(groups), any::<u16>(), any::<u16>(), 0u8..5, any::<u16>()).prop_flat_map(|(g, ws, rs, how, sel)| {
+        let (w, r) = (vmodel::gen::pick(ws, g.len()), vmodel::gen::pick(rs, g.len()));
+        let (tw, tr) = (Ty::Adt(g[w].clone()), Ty::Adt(g[r].clone()));
+        vmodel::gen::val_strategy(&tw, ValCfg { max_len: 3, long: false, ..ValCfg::default() }).prop_map(move |v| {
+            let v = vmodel::with_transient_defaults(&tw, &v);
+            if how == 4 {
+                return Call::Enc(TV { ty: tw.clone(), val: v, forms: vec![] });
+            }
+            let mut bytes = vmodel::refcodec::ref_encode(&tw, &v).map(|f| f.bytes).unwrap_or_default();
+            match how {
+                // a damaged header: one of the first bytes (version, chunk sizes, step codes) changed
+                1 if !bytes.is_empty() => {
+                    let k = vmodel::gen::pick(sel, bytes.len().min(8));
+                    bytes[k] ^= [0x01, 0x02, 0x03, 0x7f][(sel % 4) as usize]
+                }
+                2 => {
+                    let k = vmodel::gen::pick(sel, bytes.len() + 1);
+                    bytes.truncate(k)
+                }
+                _ => {}
+            }
+            Call::Dec { ty: tr.clone(), bytes }
+        })
+    });
+    let strat = prop_oneof![4 => enc, 4 => dec, 2 => stream, 1 => graph, 6 => fam];
     let mut r = runner(tag_seed(derive_seed(seed, "C18-pool", 0, 0), 0));
     (0..POOL).map(|_| strat.new_tree(&mut r).expect("pool").current()).collect()
 }
